@@ -665,5 +665,106 @@ theorem nan_normal_kept {α : Type} (P : Params α) (t : Tri)
     rcases h with h | h | h <;> simp [isZero32_of_nan_aux _ h]
   simp [triNormal, this]
 
+/-! ### ReadMesh → WriteMesh -/
+
+section resave
+variable {α : Type}
+
+def triplesFrom : Nat → Nat → List (Nat × Nat × Nat)
+  | _, 0 => []
+  | o, n + 1 => (o, o + 1, o + 2) :: triplesFrom (o + 3) n
+
+theorem chunks_range'_aux : ∀ (n o : Nat), chunks (List.range' o (3 * n)) = triplesFrom o n
+  | 0, _ => rfl
+  | n + 1, o => by
+    have e : 3 * (n + 1) = (3 * n + 2) + 1 := by omega
+    have e1 : 3 * n + 2 = (3 * n + 1) + 1 := by omega
+    rw [e, List.range'_succ, e1, List.range'_succ, List.range'_succ]
+    simp only [chunks, triplesFrom]
+    have := chunks_range'_aux n (o + 3)
+    simp only [Nat.add_assoc] at this ⊢
+    rw [this]
+
+theorem getElem?_after_aux {β : Type} (A : List β) (x y z : β) (rest : List β) :
+    (A ++ x :: y :: z :: rest)[A.length]? = some x ∧ (A ++ x :: y :: z :: rest)[A.length + 1]? = some y ∧
+    (A ++ x :: y :: z :: rest)[A.length + 2]? = some z := by
+  refine ⟨by simp, ?_, ?_⟩
+  · rw [List.getElem?_append_right (by omega)]; simp
+  · rw [List.getElem?_append_right (by omega)]; simp
+
+theorem buildTris_resave_aux (P : Params α) (keep : Bool) : ∀ (ts : List Tri) (A B : List (P3 α)),
+    A.length = B.length →
+    buildTris P (A ++ corners P ts) (if keep then some (B ++ cornerNormals P ts) else none)
+      (triplesFrom A.length ts.length) = .ok (ts.map (resaveTri P keep))
+  | [], _, _, _ => by simp [triplesFrom, buildTris]
+  | t :: ts, A, B, hl => by
+    obtain ⟨a1, a2, a3⟩ := getElem?_after_aux A (t.v1.map P.up) (t.v2.map P.up) (t.v3.map P.up) (corners P ts)
+    obtain ⟨b1, b2, b3⟩ := getElem?_after_aux B (triNormal P t) (triNormal P t) (triNormal P t) (cornerNormals P ts)
+    have ih := buildTris_resave_aux P keep ts (A ++ [t.v1.map P.up, t.v2.map P.up, t.v3.map P.up])
+      (B ++ [triNormal P t, triNormal P t, triNormal P t]) (by simp [hl])
+    have eA : (A ++ [t.v1.map P.up, t.v2.map P.up, t.v3.map P.up]) ++ corners P ts = A ++ corners P (t :: ts) := by
+      simp [corners]
+    have eB : (B ++ [triNormal P t, triNormal P t, triNormal P t]) ++ cornerNormals P ts = B ++ cornerNormals P (t :: ts) := by
+      simp [cornerNormals]
+    have eL : (A ++ [t.v1.map P.up, t.v2.map P.up, t.v3.map P.up]).length = A.length + 3 := by simp
+    rw [eA, eB, eL] at ih
+    have hsn : storedNormal P (if keep then some (B ++ cornerNormals P (t :: ts)) else none) A.length (A.length + 1) (A.length + 2)
+        = some (if keep then (P.avgNormal (triNormal P t) (triNormal P t) (triNormal P t)).map P.q32 else zeroV) := by
+      cases keep with
+      | false => simp [storedNormal]
+      | true =>
+        have c1 : (B ++ cornerNormals P (t :: ts))[A.length]? = some (triNormal P t) := by rw [hl]; exact b1
+        have c2 : (B ++ cornerNormals P (t :: ts))[A.length + 1]? = some (triNormal P t) := by rw [hl]; exact b2
+        have c3 : (B ++ cornerNormals P (t :: ts))[A.length + 2]? = some (triNormal P t) := by rw [hl]; exact b3
+        simp only [↓reduceIte, storedNormal, c1, c2, c3]
+    have d1 : (A ++ corners P (t :: ts))[A.length]? = some (t.v1.map P.up) := a1
+    have d2 : (A ++ corners P (t :: ts))[A.length + 1]? = some (t.v2.map P.up) := a2
+    have d3 : (A ++ corners P (t :: ts))[A.length + 2]? = some (t.v3.map P.up) := a3
+    simp only [List.length_cons, triplesFrom, buildTris, d1, d2, d3, hsn, ih]
+    simp [resaveTri]
+
+/-- **ReadMesh → WriteMesh, exactly.**  For every input `stl.Read` accepts (header `h`, records `ts`) and every
+    precision bundle: re-saving through a mesh does not panic and yields the file with a ZERO header, the same
+    number of records in order, every position word widened and narrowed again (`q32 (up w)`), every normal
+    re-derived as `q32 (avgNormal n n n)` from the normal `n` ReadMesh gave the record's corners (stored one
+    widened, or the geometric one where it is zero) — or all-zero when every stored normal is zero —, and
+    attribute word 0. -/
+theorem stl_mesh_resave (P : Params α) {bs : List Byte} {h : Header} {ts : List Tri}
+    (hd : decode bs = .ok (h, ts)) : resaveMesh P bs = .ok (encode zeroHeader (resaveTris P ts)) := by
+  unfold resaveMesh readMesh
+  rw [hd]
+  simp only [Except.map]
+  cases ts with
+  | nil => simp [meshOfTris, writeMesh, writeTris, resaveTris, Except.map]
+  | cons t ts' =>
+    have hb := buildTris_resave_aux P ((t :: ts').any fun t => !isZeroV t.n) (t :: ts') [] [] rfl
+    simp only [List.nil_append, List.length_nil] at hb
+    have hc : chunks (List.range (3 * (t :: ts').length)) = triplesFrom 0 (t :: ts').length := by
+      rw [List.range_eq_range']; exact chunks_range'_aux _ 0
+    simp only [meshOfTris, writeMesh, writeTris, hc, resaveTris]
+    cases hk : ((t :: ts').any fun t => !isZeroV t.n) with
+    | false => simp only [hk, Bool.false_eq_true, ↓reduceIte] at hb ⊢; rw [hb]; rfl
+    | true => simp only [hk, ↓reduceIte] at hb ⊢; rw [hb]; rfl
+
+/-- positions survive exactly when narrowing undoes widening on the stored words -/
+theorem stl_mesh_resave_positions (P : Params α) (ts : List Tri)
+    (hid : ∀ t ∈ ts, (t.v1.map P.up).map P.q32 = t.v1 ∧ (t.v2.map P.up).map P.q32 = t.v2 ∧ (t.v3.map P.up).map P.q32 = t.v3) :
+    (resaveTris P ts).map (fun t => (t.v1, t.v2, t.v3)) = ts.map (fun t => (t.v1, t.v2, t.v3)) := by
+  unfold resaveTris
+  rw [List.map_map]
+  apply List.map_congr_left
+  intro t ht
+  obtain ⟨h1, h2, h3⟩ := hid t ht
+  simp [resaveTri, h1, h2, h3]
+
+/-- the attribute word is always lost -/
+theorem stl_mesh_resave_attr (P : Params α) (ts : List Tri) : ∀ t ∈ resaveTris P ts, t.attr = 0 := by
+  intro t ht
+  unfold resaveTris at ht
+  obtain ⟨t0, _, rfl⟩ := List.mem_map.1 ht
+  rfl
+
+end resave
+
 end StlL
 end PolyVerif
